@@ -50,8 +50,10 @@ theorem doh_userinfo_id_src : doh_userinfo_id = "userinfo.Username()" := by deci
 /-- Userinfo before URL path. -/
 theorem doh_conds_src : doh_conds = "userinfo != nil | err != nil | err != nil" := by decide
 theorem match_domain_call_src : match_domain_call = "sub, domain" := by decide
-/-- The label in front of the matched device domain. -/
-theorem sni_id_slice_src : sni_id_slice = "cliSrvName[:len(cliSrvName)-len(matchedDomain)-1]" := by decide
+/-- The label in front of the matched device domain: the text before the first dot of the name as sent
+(`Model.Device.sniLabel`).  Before the fix this was a slice computed from the byte lengths of the
+original name and of the domain matched against the *lowercased* name. -/
+theorem sni_id_slice_src : sni_id_slice = "strings.Cut(cliSrvName, \".\")" := by decide
 theorem edns_opt_conds_src : edns_opt_conds = "opt.Option() != DnsmasqCPEIDOption | !ok | err != nil" := by decide
 /-- The first CPE-ID option decides. -/
 theorem edns_loop_cond_src : edns_loop_cond = "option == nil | id != \"\" || err != nil" := by decide
